@@ -20,6 +20,11 @@ var tokKinds = []string{"generic", "expression", "csv", "mustache"}
 // tokKindsExt adds differently configured instances of the built-in tokenizers
 var tokKindsExt = []string{"generic", "expression", "csv", "mustache", "csv+latin1", "csv+wide"}
 
+// tokKindsCustom: the generic and the expression tokenizer with symbols and a whitespace character of the
+// user's own (C04, C12, C15 enumerate strings over customAlphabet for them)
+var tokKindsCustom = []string{"generic+custom", "expression+custom"}
+var customAlphabet = []rune("a=:~->1 \u00a0#\n")
+
 func newTokenizer(kind string) tokenizers.ITokenizer {
 	switch kind {
 	case "generic":
@@ -40,6 +45,24 @@ func newTokenizer(kind string) tokenizers.ITokenizer {
 		t := csv.NewCsvTokenizer()
 		t.SetFieldSeparators([]rune{0x2192, ';'})
 		t.SetQuoteSymbols([]rune{0x201d, '\''})
+		return t
+	case "generic+custom", "expression+custom":
+		// configured through the public setters: further symbols - one with a prefix that is no symbol
+		// ("=:~" without "=:"), some starting with the sign - and a whitespace character (NBSP) the
+		// dispatch table does not start a whitespace on
+		t := newTokenizer(strings.SplitN(kind, "+", 2)[0])
+		for _, sym := range []string{"=:~", "->", "-=", "~~>"} {
+			t.SymbolState().Add(sym, tokenizers.Symbol)
+		}
+		t.WhitespaceState().SetWhitespaceChars(0xa0, 0xa0, true)
+		return t
+	case "generic+typedsym":
+		// symbols registered with token types of the user's choice, an end marker among them
+		t := generic.NewGenericTokenizer()
+		t.SymbolState().Add(";", tokenizers.Eof)
+		t.SymbolState().Add("::", tokenizers.Keyword)
+		t.SymbolState().Add("@@", tokenizers.Word)
+		t.SymbolState().Add("$", tokenizers.Whitespace)
 		return t
 	case "generic+cpp":
 		// the generic tokenizer configured with the library's C++ comment state ('/*..*/' and '//..')
